@@ -31,6 +31,7 @@ class Sym:
     """symbolic client state used only to pick meaningful operands"""
     def __init__(self):
         self.nodes = []     # dict(kind='s'|'g', freed=bool)
+        self.next_id = 1000  # NodeIDAllocator hands out 1000, 1001, ... (client 0)
         self.bufs = []      # dict(freed=bool, stale=bool, alloc=bool)
         self.buses = []     # dict(audio=bool, freed=bool, ch=int)
         self.depth = 0
@@ -128,9 +129,12 @@ class Gen:
             return {'t': 'none'}
         if k < 0.85:
             return {'t': 'server'}
-        if k < 0.92:
+        if k < 0.90:
             return {'t': 'root'}
-        return {'t': 'int', 'x': r.choice([1, 1000, 1001, 2000])}
+        # a target given as a number: 0 = root node, 1 = default group, or the id of an existing node
+        ids = [nd['id'] for nd in s.nodes if nd is not None and nd.get('id') is not None]
+        self.tags.add('int-target')
+        return {'t': 'int', 'x': r.choice([0, 0, 1, 1] + ids[-3:] + [2000])}
 
     def compl(self, buffer_fn=True):
         r = self.r
@@ -170,7 +174,11 @@ class Gen:
             op['target'] = self.target()
         self.emit(op)
         if ctor != 'grain':
-            s.nodes.append({'kind': 's'})
+            if ctor == 'replace' and op['same_id']:
+                nid = s.nodes[op['target']['i']].get('id')
+            else:
+                nid = s.next_id; s.next_id += 1
+            s.nodes.append({'kind': 's', 'id': nid})
 
     def op_group(self):
         r, s = self.r, self.s
@@ -184,7 +192,16 @@ class Gen:
         else:
             op['target'] = self.target()
         self.emit(op)
-        s.nodes.append({'kind': 'g'})
+        s.nodes.append({'kind': 'g', 'id': s.next_id}); s.next_id += 1
+
+    def op_basic_new(self):
+        # a client-side Group object for an id chosen by the caller (no command is sent)
+        r, s = self.r, self.s
+        ids = [nd['id'] for nd in s.nodes if nd is not None and nd.get('id') is not None]
+        nid = r.choice([0, 0, 1, 1] + ids[-2:] + [3000 + len(s.nodes)])
+        self.emit({'op': 'basic_new', 'id': nid})
+        s.nodes.append({'kind': 'g', 'id': nid})
+        self.tags.add('basic_new')
 
     def op_node_cmd(self):
         r, s = self.r, self.s
@@ -458,10 +475,11 @@ class Gen:
                        'target': {'t': 'none'}, 'action': 0, 'same_id': False})
             s.nodes.append(None)      # the constructor raises outside bind; inside bind the flush fails
             if s.depth > 0:
-                s.nodes[-1] = {'kind': 's'}
+                s.nodes[-1] = {'kind': 's', 'id': s.next_id}
+            s.next_id += 1
         elif k == 'bad_action':
             self.emit({'op': 'group', 'par': False, 'ctor': 'init', 'target': {'t': 'none'}, 'action': r.choice(['top', 5, 'x'])})
-            s.nodes.append(None)
+            s.nodes.append(None); s.next_id += 1
         elif k == 'buf_after_free':
             fb = [i for i, b in enumerate(s.bufs) if b['freed']]
             if not fb:
@@ -548,8 +566,10 @@ class Gen:
             w = r.random()
             if w < 0.16:
                 self.op_synth()
-            elif w < 0.24:
+            elif w < 0.22:
                 self.op_group()
+            elif w < 0.25:
+                self.op_basic_new()
             elif w < 0.50:
                 self.op_node_cmd()
             elif w < 0.56:
